@@ -48,6 +48,7 @@ func init() {
 		stats := fs.String("stats", "-", "stats")
 		rounds := fs.Int("rounds", 3, "proxy instances")
 		nops := fs.Int("ops", 40, "operations per round")
+		burst := fs.Int("burst", 150, "schema events emitted back to back at the end of every round")
 		_ = fs.Parse(args)
 		type stT struct{ Rounds, Emits, Schema, Registers, Closes, Failovers, Events int }
 		st := &stT{}
@@ -174,6 +175,16 @@ func init() {
 						settle()
 					}
 				}
+			}
+			settle()
+			// burst: many schema changes back to back (a DROP KEYSPACE with many tables); each must still reach every
+			// registered client exactly once
+			for b := 0; b < *burst; b++ {
+				nev++
+				if e.C.EmitEvent(fmt.Sprintf("e%d", nev), "schema", schemaEvent(rnd, nev)) > 0 {
+					st.Emits++
+				}
+				st.Schema++
 			}
 			settle()
 			t.Stop()
